@@ -1,19 +1,32 @@
 /-
 Model of the store's snapshotting state machine (C04):
-  store/store.go   fsmSnapshot (full / incremental decision, checkpoint into wal-staging,
-                   OnRelease), fsmRestore, fsmApply(LOAD), ReadFrom (boot), Open (staging removed)
+  store/store.go   fsmSnapshot (full / incremental decision incl. the dbModified() guard, checkpoint
+                   into wal-staging, OnRelease), fsmRestore, fsmApply(LOAD), ReadFrom (boot),
+                   Open (staging removed)
   store/fsm.go     FSMSnapshot.Persist / Release
-  snapshot/sink.go Close (staged WALs moved into the snapshot), store.go Reap,
+  snapshot/sink.go Close (staged WALs moved into the snapshot; refuses an incremental when a full
+                   one has become required; clears FULL_NEEDED), store.go Reap,
   snapshot/snapshot.go ResolveFiles, restore.go Restore (WALs replayed in order)
+
+A snapshot is TWO steps, as in hashicorp/raft: `snapBegin` is FSM.Snapshot() on the FSM goroutine,
+`snapEnd` is Persist + sink.Close (or Release without Persist) on the snapshot goroutine. Applies
+(writes, loads, no-ops) may happen in between.
 
 The logical database is the list of the ids of the write batches applied to it (a load/boot/
 install replaces it by the content of the file that was loaded). A WAL segment records the content
 it was cut from and the content it leads to; checkpointing it into any other database gives a
-malformed file (`none`) — this is SQLite's behaviour as the correspondence run observes it
-("database disk image is malformed") and the only property of segments the theorems use.
+malformed file (`none`).
 
-`fixed = true` is the code after the `fix:` commit (the staging directory is dropped whenever the
-base database changes: full-snapshot path and fsmRestore); `fixed = false` the code before it.
+Two guards make the next snapshot a full one after the base database changed: the FULL_NEEDED flag
+file (set by LOAD/boot; cleared by the sink whenever it installs a snapshot — also when that
+snapshot was captured BEFORE the load) and `modified`: the database file's modification time is
+later than the one recorded at the end of the last fsmSnapshot / fsmRestore (set by the swap a load
+performs). The second is what protects the window "full snapshot of A captured; load B applied;
+the snapshot of A installed and the flag cleared".
+
+`lvl` selects the code version: 0 = before `fix:` 6482ad3; 1 = with 6482ad3 (staged WALs dropped by
+the full-snapshot path when present, and by fsmRestore); 2 = with the second `fix:` commit as well
+(the full-snapshot path always keeps a full snapshot required until one is installed).
 -/
 import RqModel.Model.Util
 namespace RqModel.SnapSM
@@ -43,6 +56,13 @@ inductive Entry where
   | load (c : C)
 deriving DecidableEq, Repr
 
+/-- a snapshot captured by FSM.Snapshot() and not yet persisted: what it holds, and how many
+database-changing entries / commands the log had after the newest snapshot at that moment -/
+inductive Pend where
+  | full (c : C) (n cm : Nat)
+  | inc (n cm : Nat)
+deriving DecidableEq, Repr
+
 structure SM where
   /-- the applied database (main file + live WAL) -/
   db : C := []
@@ -53,6 +73,9 @@ structure SM where
   /-- the snapshot store, oldest first -/
   snaps : List Snap := []
   fullNeeded : Bool := false
+  /-- dbModified(): the database file changed after the time recorded by fsmSnapshot/fsmRestore -/
+  modified : Bool := false
+  pend : Option Pend := none
   /-- database-changing log entries after the newest snapshot's index -/
   tail : List Entry := []
   /-- command entries (writes, loads, no-ops) in the log after the newest snapshot -/
@@ -76,9 +99,20 @@ def applyEntry (d : Option C) : Entry → Option C
 /-- raft replays the log after the snapshot -/
 def replay (d : Option C) (es : List Entry) : Option C := es.foldl applyEntry d
 
-/-- how a snapshot attempt ends -/
+/-- the database file after the replay: the last loaded file, else the restored one -/
+def fileAfter (r : C) (es : List Entry) : C :=
+  es.foldl (fun f e => match e with
+    | .load c => c
+    | .write _ => f) r
+
+def hasLoad (es : List Entry) : Bool :=
+  es.any fun e => match e with
+    | .load _ => true
+    | .write _ => false
+
+/-- how a captured snapshot ends -/
 inductive Outcome where
-  /-- raft persisted it and the sink installed it -/
+  /-- raft persisted it and closed the sink -/
   | ok
   /-- raft released it without calling Persist (e.g. a configuration change is in flight) -/
   | notInvoked
@@ -91,6 +125,11 @@ deriving DecidableEq, Repr
 inductive Op where
   | write (w : Nat)
   | noop
+  /-- FSM.Snapshot() -/
+  | snapBegin
+  /-- Persist + Close / Release of the captured snapshot -/
+  | snapEnd (o : Outcome)
+  /-- both steps back to back, through raft (user-requested snapshot) -/
   | snapshot (o : Outcome)
   | load (c : C)
   | boot (c : C)
@@ -100,51 +139,91 @@ inductive Op where
   | restart
 deriving DecidableEq, Repr
 
-def fullDue (s : SM) : Bool := s.fullNeeded || s.snaps.isEmpty
+/-- snapshotDueNext() = Full -/
+def fullDue (s : SM) : Bool := s.fullNeeded || s.snaps.isEmpty || s.modified
 
-/-- fsmSnapshot + Persist/Release -/
-def snapshot (fixed : Bool) (s : SM) (o : Outcome) : SM × String :=
-  if o = .ok && !s.applied then (s, "nothing")
+/-- fsmSnapshot -/
+def snapBegin (lvl : Nat) (s : SM) : SM × String :=
+  if s.pend.isSome then (s, "busy")
   else if fullDue s then
-    -- full: [fix: drop stale staged segments, and require a full until one is installed]
-    let s := if fixed && !s.staged.isEmpty then { s with staged := [], fullNeeded := true } else s
-    let s := { s with file := s.db }
-    match o with
-    | .ok => ({ s with snaps := s.snaps ++ [.full s.db], fullNeeded := false, tail := [], cmds := 0 }, "full")
-    | _ => (s, "full-not-installed")
+    let s :=
+      if lvl ≥ 2 then { s with staged := [], fullNeeded := true }
+      else if lvl = 1 && !s.staged.isEmpty then { s with staged := [], fullNeeded := true }
+      else s
+    ({ s with file := s.db, modified := false, pend := some (.full s.db s.tail.length s.cmds) }, "full")
   else if s.db = s.file then (s, "nowal")
   else
-    let s := { s with staged := s.staged ++ [⟨s.file, s.db⟩], file := s.db }
-    match o with
-    | .ok => ({ s with snaps := s.snaps ++ [.inc s.staged], staged := [], tail := [], cmds := 0 }, "incremental")
-    | .notInvoked => (s, "incremental-not-installed")
-    | .failBefore => (s, "incremental-not-installed")
-    | .failAfter => ({ s with staged := [], fullNeeded := true }, "incremental-not-installed")
+    ({ s with staged := s.staged ++ [⟨s.file, s.db⟩], file := s.db,
+              pend := some (.inc s.tail.length s.cmds) }, "incremental")
 
-def step (fixed : Bool) (s : SM) : Op → SM × String
+/-- Persist + sink.Close, or Release -/
+def snapEnd (s : SM) (o : Outcome) : SM × String :=
+  match s.pend with
+  | none => (s, "nopending")
+  | some (.full c n cm) =>
+    match o with
+    | .ok =>
+      ({ s with snaps := s.snaps ++ [.full c], fullNeeded := false, tail := s.tail.drop n, cmds := s.cmds - cm,
+                pend := none }, "installed")
+    | _ => ({ s with pend := none }, "not-installed")
+  | some (.inc n cm) =>
+    match o with
+    | .ok =>
+      -- Close looks at the requirement again before consuming the staging directory
+      if s.fullNeeded then ({ s with pend := none }, "not-installed")
+      else
+        ({ s with snaps := s.snaps ++ [.inc s.staged], staged := [], tail := s.tail.drop n, cmds := s.cmds - cm,
+                  pend := none }, "installed")
+    | .notInvoked => ({ s with pend := none }, "not-installed")
+    | .failBefore => ({ s with pend := none }, "not-installed")
+    | .failAfter => ({ s with staged := [], fullNeeded := true, pend := none }, "not-installed")
+
+/-- a snapshot taken through raft, both steps back to back -/
+def snapshot (lvl : Nat) (s : SM) (o : Outcome) : SM × String :=
+  if o = .ok && !s.applied then (s, "nothing")
+  else
+    let (s1, k) := snapBegin lvl s
+    if k = "full" || k = "incremental" then
+      let (s2, r) := snapEnd s1 o
+      (s2, if r = "installed" then k else k ++ "-not-installed")
+    else (s1, k)
+
+def step (lvl : Nat) (s : SM) : Op → SM × String
   | .write w =>
     ({ s with db := s.db ++ [w], tail := s.tail ++ [.write w], cmds := s.cmds + 1, applied := true }, "ok")
   | .noop => ({ s with cmds := s.cmds + 1, applied := true }, "ok")
-  | .snapshot o => snapshot fixed s o
+  | .snapBegin => snapBegin lvl s
+  | .snapEnd o => snapEnd s o
+  | .snapshot o => snapshot lvl s o
   | .load c =>
-    ({ s with db := c, file := c, fullNeeded := true, tail := s.tail ++ [.load c], cmds := s.cmds + 1, applied := true }, "ok")
+    -- the swap gives the database file a new modification time
+    ({ s with db := c, file := c, fullNeeded := true, modified := true, tail := s.tail ++ [.load c],
+              cmds := s.cmds + 1, applied := true }, "ok")
   | .boot c =>
-    -- noop entry, swap, SetDueNext(Full), Snapshot (full, installed)
-    let s := { s with db := c, file := c, fullNeeded := true, cmds := s.cmds + 1, applied := true }
-    ((snapshot fixed s .ok).1, "ok")
+    if s.pend.isSome then (s, "busy")
+    else
+      -- noop entry, swap, SetDueNext(Full), Snapshot (full, installed)
+      let s := { s with db := c, file := c, fullNeeded := true, modified := true, cmds := s.cmds + 1, applied := true }
+      ((snapshot lvl s .ok).1, "ok")
   | .install c =>
-    let s := { s with snaps := s.snaps ++ [.full c], fullNeeded := false, db := c, file := c, tail := [], cmds := 0 }
-    (if fixed then { s with staged := [] } else s, "ok")
+    if s.pend.isSome then (s, "busy")
+    else
+      let s := { s with snaps := s.snaps ++ [.full c], fullNeeded := false, db := c, file := c, modified := false,
+                        tail := [], cmds := 0 }
+      (if lvl ≥ 1 then { s with staged := [] } else s, "ok")
   | .reap =>
     match resolve s.snaps with
     | some c => if s.snaps.length > 1 then ({ s with snaps := [.full c] }, "ok") else (s, "ok")
     | none => (s, "ok")
   | .restart =>
     -- Open removes wal-staging; raft restores the newest snapshot and replays the log after it
+    -- (replaying a LOAD sets FULL_NEEDED again); the recorded modification time starts afresh
     match resolve s.snaps, replay (resolve s.snaps) s.tail with
-    | some r, some c => ({ s with db := c, file := r, staged := [], applied := decide (s.cmds > 0) }, "ok")
+    | some r, some c =>
+      ({ s with db := c, file := fileAfter r s.tail, staged := [], pend := none, applied := decide (s.cmds > 0),
+                modified := false, fullNeeded := s.fullNeeded || hasLoad s.tail }, "ok")
     | _, _ => (s, "corrupt")
 
-def run (fixed : Bool) (s : SM) (ops : List Op) : SM := ops.foldl (fun s o => (step fixed s o).1) s
+def run (lvl : Nat) (s : SM) (ops : List Op) : SM := ops.foldl (fun s o => (step lvl s o).1) s
 
 end RqModel.SnapSM
